@@ -73,8 +73,16 @@ class FakeFS:
         self.raws: List[ShortReadRaw] = []
 
     def open(self, name: str, mode: str = "r", buffering: int = -1, encoding: Optional[str] = None, errors: Optional[str] = None, *a: Any, **k: Any) -> Any:
-        if "w" in mode:
+        if "w" in mode or "a" in mode or "+" in mode or "x" in mode:
             out = CapturedText()
+            old = self.files.get(name)
+            if old is not None and "w" not in mode:
+                # a pre-existing file opened without truncation keeps its content
+                if "x" in mode:
+                    raise FileExistsError(17, "File exists", name)
+                out.write(old.decode("utf-8", "replace"))
+                if "a" not in mode:
+                    out.seek(0)
             self.outputs[name] = out
             return out
         if name not in self.files:
